@@ -661,6 +661,17 @@ class Exec:
                 cs = [x.cells.get(o) for x in regs]
                 if all(c is not None and c[0] == cs[0][0] for c in cs):
                     nreg.cells[o] = (cs[0][0], s.ite_merge(guards, [c[1] for c in cs], 8 * cs[0][0]))
+                elif any(c is not None and isinstance(c[1], Ptr) for c in cs):
+                    # a pointer-valued slot (typically a dead stack temporary) written on some branches only: keep the
+                    # pointer alternatives under their guards; the other branches hold indeterminate bytes there
+                    alts = []
+                    for g_, c in zip(guards, cs):
+                        if c is not None and isinstance(c[1], Ptr):
+                            for g2, q2 in c[1].alts():
+                                alts.append((g_ if g2 is None else z3.And(g_, g2), q2))
+                    nreg.cells[o] = (8, alts[0][1] if len(alts) == 1 and len([1 for c in cs if c is not None and isinstance(c[1], Ptr)]) == len(cs) else Ptr(None, None, alts))
+                    for i in range(1, 8):
+                        nreg.cells.pop(o + i, None)
                 else:
                     # width mismatch: fall back to byte merge
                     n = max(c[0] for c in cs if c is not None)
